@@ -119,7 +119,25 @@ def _cases(tier, rng):
             yield {'kind': 'mux', 'term': [['group_by', ['nth', 0], [['map', ['nth', 1]], [op, km, red]]]], 'items': tagged, 'grouped': True}
 
 
+def real(case):      # noqa: F811
+    if case['kind'] == 'feedback':
+        return muxprop.feedback_real(case)
+    r = muxprop.real(case)
+    # "the streaming value after the last item equals the reduce value": the same pipeline in the other mode, on the same items
+    if not case.get('grouped') and not case.get('prelude') and not case.get('share') and case['kind'] in ('mux', 'plain') \
+            and len(case['term']) == 1 and case['items']:
+        st = case['term'][0]
+        other = dict(case, term=[[st[0], st[1], not st[2]]])
+        other.pop('tramp', None)
+        o = muxprop.real(other)
+        r['other_mode'] = o.get('chunks')
+        r['other_raised'] = o.get('raised') or o.get('harness_exc')
+    return r
+
+
 def shrink_candidates(case):
+    if case['kind'] == 'feedback':
+        return
     for it in muxgen.shrink_items(case['items']):
         c = dict(case)
         c['items'] = it
@@ -256,7 +274,18 @@ def _oracle(case, r):
             return '%s(reduce=%s) over %d items ended with an error: %s' % (op, red, n, [o for _, o in outs if 'x' in o])
         return '%s(reduce=%s) over %d items emitted at steps %s, expected %s' % (op, red, n, [p for p, _ in outs][:20], want_pos[:20])
     pos = [((p + 1 if not red else n), (dec(o['i']) if 'i' in o else None)) for p, o in outs]
-    return judge(op, red, st[1], xs, pos)
+    v = judge(op, red, st[1], xs, pos)
+    if v:
+        return v
+    if r.get('other_mode') is not None and not r.get('other_raised') and n > 0:
+        mine = [o for c in chunks for o in c]
+        theirs = [o for c in r['other_mode'][1:] for o in c]
+        if mine and theirs and all('i' in o for o in mine + theirs):
+            a, b = (mine[-1], theirs[-1])
+            if muxprop.strict_ne(a, b):
+                return ('%s(key_mapper=%s) over %d items (first items %s): the streaming value after the last item and the reduce value differ: '
+                        '%s vs %s' % (op, st[1], n, xs[:6], *( (dec(a['i']), dec(b['i'])) if not red else (dec(b['i']), dec(a['i'])) )))
+    return None
 
 
 def nontrivial(case, r):
@@ -264,6 +293,8 @@ def nontrivial(case, r):
 
 
 def tags(case, r):
+    if case['kind'] == 'feedback':
+        return ['kind=feedback', 'op=' + case['term'][-1][0], 'plain=%s' % case['plain']]
     st = case['term'][-1] if not case.get('grouped') else case['term'][0][2][-1]
     n = len(case['items'])
     return ['kind=' + case['kind'], 'op=' + st[0], 'reduce=%s' % st[2],
@@ -279,10 +310,29 @@ def cases(tier, rng):
     """every case of `_cases`, and for a fraction of them the same case run as the SECOND subscription of its pipeline
     object (formal.variance keeps its items in a list that is the seed of a scan)"""
     pr = rng.sub('resubscription')
-    return muxprop.with_preludes(_cases(tier, rng), pr, frac=0.25)
+    # feedback loops on the plain and the keyed path: every aggregate is built on scan; the running value after a follow-up item pushed
+    # from inside an on_next includes the item that set it off
+    for c in muxprop.feedback_cases(tier, rng.sub('feedback'), plain_share=0.6):
+        yield c
+    for c in muxprop.with_preludes(_cases(tier, rng), pr, frac=0.25):
+        yield c
+
+
+def model_cmds(case):      # noqa: F811
+    return [] if case.get('no_model') else muxprop.model_cmds(case)
+
+
+def model_result(case, ans):      # noqa: F811
+    return {} if case.get('no_model') else muxprop.model_result(case, ans)
+
+
+def compare(case, r, m):      # noqa: F811
+    return None if case.get('no_model') else muxprop.compare(case, r, m)
 
 
 def oracle(case, r):
+    if case['kind'] == 'feedback':
+        return muxprop.feedback_violation(case, r)
     v = muxprop.prelude_violation(case, r)
     if v or case.get('share'):
         return v        # the shared-operator variant wraps the pipeline in a tee_map: judged against separately built operators only
